@@ -176,6 +176,32 @@ impl CProbe {
 }
 thread_local! {
   static SETUP_LOG: std::cell::RefCell<Vec<J>> = std::cell::RefCell::new(vec![]);
+  /// canonical name of the API call the current thread is executing (names what that call creates)
+  static CURRENT_CALL: std::cell::RefCell<String> = std::cell::RefCell::new(String::new());
+}
+
+/// subscriber of a stream of groups: records the announcement and attaches a recording subscriber to the group at once
+pub struct CGroupProbe {
+  pub name: String,
+  pub reg: Arc<Mutex<GroupReg>>,
+}
+impl Observer<TGroup, Val> for CGroupProbe {
+  fn next(&mut self, g: TGroup) {
+    let sid = self.reg.lock().unwrap().last;
+    CProbe { name: self.name.clone() }.note("N", Val::G(sid, Box::new(g.key.clone())));
+    // the group's subscriber is named after the call that made the group appear
+    let name = CURRENT_CALL.with(|c| c.borrow().clone());
+    let _ = g.actual_subscribe(CProbe { name });
+  }
+  fn error(self, e: Val) {
+    CProbe { name: self.name.clone() }.note("E", e)
+  }
+  fn complete(self) {
+    CProbe { name: self.name.clone() }.note("C", Val::U)
+  }
+  fn is_finished(&self) -> bool {
+    false
+  }
 }
 
 /// the shared objects of one run
@@ -231,7 +257,9 @@ impl World {
       }
       "sub" => {
         let root = s.a as usize; // the scripts of cases.json use the local AST indices
-        let h = if self.env.prog[root - 1].op == "publish" {
+        let h = if is_groups(&self.env.prog, root) {
+          BoxSubscriptionThreads::new(groups_t(&self.env, root).actual_subscribe(CGroupProbe { name: name.clone(), reg: self.env.groups.clone() }))
+        } else if self.env.prog[root - 1].op == "publish" {
           BoxSubscriptionThreads::new(self.publish_fork(root).actual_subscribe(CProbe { name: name.clone() }))
         } else if self.env.prog[root - 1].op == "status" {
           let src = self.built(self.env.prog[root - 1].s1);
@@ -440,6 +468,7 @@ pub fn run_once(case: &CaseSpec, prefix: &[usize]) -> RunResult {
         wait_turn(false, None);
         record(json!({"k": "call", "th": t, "i": i + 1, "s": s.to_json()}));
         let gone = if s.k == "unsub" { world2.hnames.lock().unwrap().get((s.a - 1) as usize).cloned() } else { None };
+        CURRENT_CALL.with(|c| *c.borrow_mut() = format!("t{t}c{}", i + 1));
         let r = catch_unwind(AssertUnwindSafe(|| world2.call(s, format!("t{t}c{}", i + 1))));
         match r {
           Ok(v) => {
